@@ -1,6 +1,6 @@
 import LowProofs.Props.C05
 import LowProofs.Tie2.bmtree_IndexToPath
-import LowProofs.E2E.C03
+import LowProofs.E2E.C03Strict
 /-
   C05 end to end: `C05_inverse` / `C05_inverse'` stated about the definition REGENERATED from the go/ssa form of
   `bmtree.IndexToPath` (`Generated/Ssa2/bmtree_IndexToPath.lean`; its loop is recursion on `fuel`, the table
